@@ -23,7 +23,7 @@ RULE = ("NP2.4 recordings whose first rows contain all 65536 int16 values (or al
         "(gain, assignment mode, #shanks, window, ns, options)")
 ASSUMPTIONS = ["byte comparison uses harness code (numpy.fromfile / mtscomp), never the repository's reader",
                "metadata equality is judged on the parsed dictionaries (tilde prefixes are not part of a key)"]
-REQUIRED = {"shank_files_compared": 8, "reconstructions": 3, "meta_fields_compared": 100, "values_all_int16": 1, "second_passes": 4, "shank_files_opened": 8}
+REQUIRED = {"shank_files_compared": 8, "reconstructions": 3, "meta_fields_compared": 100, "values_all_int16": 1, "second_passes": 4, "shank_files_opened": 8, "limited_precision_durations": 5, "compressed_originals": 3}
 CASE_TIMEOUT = 120.0
 MAX_PROCS = 12
 
@@ -61,13 +61,23 @@ def run_case(case):
     b, rec = np2.build(rng, d, ns=ns, gain=gain, sites=sites, content=content, encoding=enc)
     raw = rec.raw
     second = str(rng.choice(["", "", "overwrite", "init+overwrite"])) if not case.get("long") else ""
+    # the original as it may arrive: duration written with a few decimals only, and / or already compressed
+    tsec = np2.round_duration(b.with_suffix(".meta"), ns, rec.fs, rng) if rng.random() < 0.5 else None
+    orig_cbin = (not case.get("long")) and rng.random() < 0.3
     label = (f"gain={gain[0]}/{gain[1]} mode={mode} shanks={sorted(set(sites[:, 0].tolist()))} window={window} ns={ns} {content} "
-             f"post_check={post_check} compress={compress} enc={enc}" + (f" second-pass={second}" if second else ""))
+             f"post_check={post_check} compress={compress} enc={enc}" + (f" second-pass={second}" if second else "")
+             + (f" fileTimeSecs={tsec}" if tsec else "") + (" original=cbin" if orig_cbin else ""))
+    if tsec:
+        res.count("limited_precision_durations")
     allv = len(np.unique(raw[:, :384])) == 65536
     if allv:
         res.count("values_all_int16")
     orig_bytes = b.read_bytes()
     orig_meta_text = b.with_suffix(".meta").read_text()
+    if orig_cbin:
+        b = np2.compress_original(b, rec)
+        orig_bytes = b.read_bytes()
+        res.count("compressed_originals")
     cols = np2.shank_columns(rec)
     # ------------------------------------------------------------------ split
     try:
@@ -161,7 +171,7 @@ def run_case(case):
             else:
                 key = "reconstruct:bytes"
             res.check(same, key, f"{label}: reconstructed binary differs from the original (shape {got.shape} vs {raw.shape})")
-            if not rcomp:
+            if not rcomp and not orig_cbin:
                 res.check(M.sha1(out) == M.sha1(keep / "probe00" / (np2.NAME + ".bin")) or not same, "reconstruct:sha1", f"{label}: SHA-1 differs")
             m0 = spikeglx.read_meta_data(keep / "probe00" / (np2.NAME + ".meta"))
             m1 = spikeglx.read_meta_data(out.with_suffix(".meta"))
